@@ -575,6 +575,7 @@ EnvStep(s, in) ==
                             ELSE Res(TRUE, "", [s EXCEPT !.env.blocked = @ \ {in.who}], NoReq)
     [] in.op = "cctpPause"   -> Res(TRUE, "", [s EXCEPT !.env.cctpPaused = TRUE], NoReq)
     [] in.op = "cctpUnpause" -> Res(TRUE, "", [s EXCEPT !.env.cctpPaused = FALSE], NoReq)
+    [] in.op = "bigdust" -> Res(TRUE, "", s, NoReq)      \* 2^64 units of the (untracked) big denom deposited on the orbiter account
     [] in.op = "bigback" -> Res(TRUE, "", s, NoReq)      \* big-denom coins go out over IBC again (untracked denom)
     [] OTHER -> Res(FALSE, "env", s, NoReq)
 
@@ -785,7 +786,7 @@ ModelStep(pre, in) ==
        hasQ |-> in.t = "admin",
        q |-> QueryView(r.st),
        x |-> [exportOk |-> TRUE, validateOk |-> TRUE, initOk |-> TRUE, sameExport |-> TRUE, fullOk |-> TRUE, sameBeh |-> TRUE],
-       hasBig |-> FALSE, big |-> [esc |-> <<0>>, orb |-> <<0>>, dust |-> <<0>>, F1 |-> <<0>>, F2 |-> <<0>>, U |-> <<0>>],
+       hasBig |-> FALSE, big |-> [esc |-> <<0>>, orb |-> <<0>>, orbPre |-> <<0>>, dust |-> <<0>>, F1 |-> <<0>>, F2 |-> <<0>>, U |-> <<0>>],
        hasDiff |-> isRecv \/ in.t \in {"ackpkt", "timeout"},
        diff |-> [ackEq |-> TRUE, eventsEq |-> TRUE, stateEq |-> TRUE, appVersionEq |-> TRUE],
        pages |-> IF in.t = "query" THEN ModelPages(pre, in.q) ELSE <<>>,
